@@ -201,7 +201,8 @@ func init() {
 		})
 		return ch
 	}
-	intrinsics["time.Sleep"] = func(fr *frame, a []value) value {
+	redirects["time.Sleep"] = "verifTimeSleep"
+	verifIntrinsics["verifRealSleep"] = func(fr *frame, a []value) value {
 		d := durationArg(a[0], "time.Sleep")
 		R.sleeps = append(R.sleeps, d)
 		if d <= 0 {
